@@ -155,7 +155,7 @@ func (w *c15World) setPrice(p int64) {
 
 func TestC15(t *testing.T) {
 	rec := ev.For("C15")
-	rec.Describe("stateful histories of init-provider / shutdown / re-init / shutdown-again by 4 accounts (balances around the price) interleaved with CollateralPrice parameter changes (up and down) and with storage activity (a customer's files taken by the registered providers, which keep proving or fall silent while reward blocks raise their burn counters), on a fork of the real app with the real bank keeper. After every step: escrow account balance == sum of Collateral records == model; init debits exactly the current price; shutdown credits exactly the recorded amount and removes provider and record; shutdown by a non-provider pays nothing; at the end of every history the storage genesis is exported and imported into a fresh store, where the records must still add up to the escrow balance. Non-trivial = a successful shutdown after the price changed since that provider's init; distinct = distinct traces.",
+	rec.Describe("stateful histories of init-provider / shutdown / re-init / shutdown-again by 4 accounts (balances around the price) and edits of the provider record (SetProviderIP / Keybase / TotalSpace), interleaved with CollateralPrice parameter changes (up and down) and with storage activity (a customer's files taken by the registered providers, which keep proving or fall silent while reward blocks raise their burn counters), on a fork of the real app with the real bank keeper. After every step: escrow account balance == sum of Collateral records == model; init debits exactly the current price; shutdown credits exactly the recorded amount and removes provider and record; shutdown by a non-provider pays nothing; at the end of every history the storage genesis is exported and imported into a fresh store, where the records must still add up to the escrow balance. Non-trivial = a successful shutdown after the price changed since that provider's init; distinct = distinct traces.",
 		"CollateralPrice is changed through the keeper's SetParams with values its validator accepts (> 1), standing in for governance")
 	c := chain.New(chain.GenesisOpts{NumAccounts: 4, Balance: sdk.NewCoins(sdk.NewInt64Coin("ujkl", 30_000)), Faucet: sdk.NewCoins(sdk.NewInt64Coin("ujkl", 1_000_000_000_000))})
 	defer c.Close()
@@ -265,6 +265,25 @@ func TestC15(t *testing.T) {
 					w.burns = burned
 				}
 				w.logf("%d blocks pass (providers keep proving: %v); providers with burned contracts: %d", n, proving, burned)
+			},
+			// a provider edits its own record (address, keybase identity, capacity): the collateral stays what it was
+			"edit": func(rt *rapid.T) {
+				a := chain.Acc(rapid.IntRange(0, 3).Draw(rt, "acc"))
+				var m sdk.Msg
+				switch rapid.IntRange(0, 2).Draw(rt, "field") {
+				case 0:
+					m = storagetypes.NewMsgSetProviderIP(a.Bech, rapid.SampledFrom([]string{"https://new.example.net", "http://10.1.1.1:3333"}).Draw(rt, "ip"))
+				case 1:
+					m = storagetypes.NewMsgSetProviderKeybase(a.Bech, rapid.SampledFrom([]string{"kb2", ""}).Draw(rt, "keybase"))
+				default:
+					m = storagetypes.NewMsgSetProviderTotalSpace(a.Bech, rapid.Int64Range(0, 1<<40).Draw(rt, "space"))
+				}
+				before := w.f.Snapshot()
+				res := w.f.Exec(m)
+				w.logf("%s -> %s", msgSummary(m), res)
+				if d := before.Diff(w.f.Snapshot()); len(d) != 0 {
+					fail("C15/edit-moved-funds", fmt.Sprintf("a provider-record edit changed balances: %v", d))
+				}
 			},
 			"price": func(rt *rapid.T) {
 				w.setPrice(rapid.SampledFrom([]int64{2, 3, 4_000, 9_999, 10_000, 10_001, 15_000, 29_999, 30_000, 30_001, 1_000_000}).Draw(rt, "price"))
